@@ -25,10 +25,18 @@
       underscores appended); [generate] / [generate_cli] is the generator up to that repair, on which
       the proofs are carried out; [C20_generators_agree]: they return the same program whenever no
       two members of a selection set derive the same field name ([excl_member_clash] = false).
-      PARTIAL: for selection sets WITH such a clash the repaired generator is covered by the
-      correspondence check and the oracle only (every clash case compiles with go/types and decodes;
-      witness [C20_fixed_member_name_clash]); the full statements - the three main theorems without
-      the hypothesis [excl_member_clash S d = false] - are not proved.
+      The statements about structs, references, forwarders, printable types, distinct <Op>Data /
+      <F>Fragment names ([C20_gen_accepts_structs]) and about decoding ([C20_gen_decodes]) are
+      proved about [generate_real] itself, WITH clashing members (ClientGenGoodS / FinalS / DecodeS /
+      NamesS / MainS / TopS.v: the loop invariant, the final struct and the decoder over the assigned
+      field names), under the envelope and one names-only premise, [names_no_dunder S d]: no
+      composite type, fragment, type condition is named with a leading "__" ([schema.New] rejects
+      such type names; for fragment names the library has no such rule - an observation).
+      PARTIAL: the clause about the declared identifiers as a whole ([cl_identifiers]: enum types,
+      enum constants, <Op>Data, <F>Fragment, sel<T><n>, json pairwise distinct identifiers; field
+      names identifiers) is still proved through the agreement, i.e. under
+      [excl_member_clash S d = false] and [decl_safe S d = true] ([C20_gen_wf_partial],
+      [C20_gen_wf_clauses_partial]).
     - [excl_decl_clash] (two generated declarations get the same identifier, or a schema name is
       used where Go cannot take it) is repaired too ("an enum named like a generated type, a
       reserved identifier or another enum's constant": the names of enum types and constants are
@@ -57,7 +65,7 @@ From Coq Require Import List NArith Bool String.
 Open Scope string_scope.
 From ApiFu Require Import Base.Sexp Gen.GoTypes Gen.ClientGenModel Gen.DecodeModel Gen.ClientGenSpec
      Gen.ClientGenMain Gen.ClientGenWitness Gen.ClientGenDeclSafe Gen.LoadSchemaModel Gen.LoadSchemaProofs
-     Gen.ClientGenAgree Gen.ClientGenFresh Gen.ClientGenClauses.
+     Gen.ClientGenAgree Gen.ClientGenFresh Gen.ClientGenClauses Gen.ClientGenTopS.
 Import ListNotations.
 
 (** the generator accepts every operation of the envelope and its output is well formed *)
@@ -132,15 +140,33 @@ Theorem C20_gen_wf_clauses_partial : forall D S d,
             cl_struct_members p /\ cl_references p /\ cl_method_forwarders p /\ cl_identifiers p.
 Proof. exact real_wf_clauses. Qed.
 
-(** decoding any response shaped by a named operation yields exactly the selected leaves *)
-Theorem C20_gen_decodes_partial : forall D S d,
-  env S d = true -> schema_loadable S = true -> excl_member_clash S d = false -> decl_safe S d = true ->
+(** the generator of the current tree, member-name clashes included: it accepts, every struct has
+    pairwise distinct field names and an UnmarshalJSON over existing fields, every referenced type
+    is declared, forwarders only where the method exists, the <Op>Data / <F>Fragment names are
+    pairwise distinct, no enum type is named by a keyword, every type is printable *)
+Theorem C20_gen_accepts_structs : forall D S d,
+  env S d = true -> schema_loadable S = true -> names_no_dunder S d = true ->
+  exists p, generate_real D S (doc_valid S d) d = GOk p /\
+            cl_struct_members p /\ cl_references p /\ cl_method_forwarders p /\
+            NoDup (map td_name (p_defs p)) /\
+            forallb (fun e : name * list (name * name) => negb (go_keyword (fst e))) (p_enums p) = true /\
+            (forall dfn, In dfn (p_defs p) -> type_syntax_ok (td_type dfn) = true).
+Proof. exact real_s_accepts. Qed.
+
+(** decoding any response shaped by a named operation yields exactly the selected leaves
+    (member-name clashes included; no hypothesis on declaration names) *)
+Theorem C20_gen_decodes : forall D S d,
+  env S d = true -> schema_loadable S = true -> names_no_dunder S d = true ->
   forall p o opname w,
     generate_real D S (doc_valid S d) d = GOk p ->
     In o (d_ops d) -> op_name o = Some opname -> conforms S o w = true ->
     exists n v, (forall fuel, (n <= fuel)%nat -> decode_op p fuel opname (json_of w) = DOk v) /\
                 (forall pl, In pl (leaves v) <-> In pl (expected S o w)).
-Proof. exact real_decodes. Qed.
+Proof. exact real_s_decodes. Qed.
+
+(** the premise [names_no_dunder] is one conjunct of [decl_safe] *)
+Theorem C20_decl_safe_no_dunder : forall S d, decl_safe S d = true -> names_no_dunder S d = true.
+Proof. exact decl_safe_no_dunder. Qed.
 
 (** operations that fail validation are rejected and nothing is generated (whatever the flags) *)
 Theorem C20_gen_invalid_no_output : forall Q S d,
@@ -239,7 +265,9 @@ Print Assumptions C20_assigned_field_names_distinct.
 Print Assumptions C20_enum_type_names_distinct.
 Print Assumptions C20_enum_const_names_distinct.
 Print Assumptions C20_gen_wf_clauses_partial.
-Print Assumptions C20_gen_decodes_partial.
+Print Assumptions C20_gen_accepts_structs.
+Print Assumptions C20_gen_decodes.
+Print Assumptions C20_decl_safe_no_dunder.
 Print Assumptions C20_generators_agree.
 Print Assumptions C20_fixed_member_name_clash.
 Print Assumptions C20_gen_invalid_no_output.
